@@ -240,6 +240,13 @@ def tie(ctx, tier_override=None, tag="tie"):
                             case, val, obs)
             if len(samples) < 6 and k % 997 == 3:
                 samples.append({"type": tname, "value": val[:200], "model": mo[k][:300]})
+        elif parts[0] == "D":
+            compared += 1
+            if im.get("define") != m.get("define"):
+                case = {"type": c[2], "type_index": int(c[1]), "tcode": parts[1], "value": parts[2]}
+                add("marshal:%s:define-global" % c[2],
+                    "storing a %s in a global (ExternModule::new marshals it into a rooted value) fails or leaves the VM unusable" % c[2],
+                    case, m.get("define"), im.get("define"))
         elif parts[0] == "G":
             tw, tt, val = parts[1], parts[2], parts[3]
             case = {"requested": c[4] if len(c) > 4 else tw, "stored": c[2], "type_index": int(c[1]), "tcode_requested": tw, "tcode": tt, "value": val}
